@@ -399,6 +399,25 @@ func TestC04(t *testing.T) {
 			}
 		}
 
+		// the Aggregate result grouped again by fewer of its keys (a result is a frame like any other)
+		if len(g.keys) >= 2 && in.N() > 0 && rapid.IntRange(0, 3).Draw(t, "regroup") == 0 {
+			sub := g.keys[:len(g.keys)-1]
+			gd := hx.WithEnumDecl(got, in)
+			wantGroups := hx.Partition(gd, sub, g.groupNull)
+			r2 := res.GroupBy(groupby.Columns(sub...), groupby.Null(g.groupNull)).Aggregate(qframe.Aggregation{Fn: "count", Column: g.keys[len(g.keys)-1], As: "zz-n"})
+			if r2.Err != nil || r2.Len() != len(wantGroups) {
+				t.Fatalf("the Aggregate result grouped again by %q: %d groups (Err %v), its key classes number %d\n%s\nresult %s", sub, r2.Len(), r2.Err, len(wantGroups), desc(), got.String())
+			}
+			if v, err := r2.IntView("zz-n"); err == nil {
+				total := 0
+				for _, c := range v.Slice() {
+					total += c
+				}
+				if total != res.Len() {
+					t.Fatalf("the groups of the re-grouped Aggregate result hold %d rows, it has %d\n%s", total, res.Len(), desc())
+				}
+			}
+		}
 		classes := groupClasses(g, groups)
 		for _, a := range aggs {
 			classes = append(classes, "agg:"+in.MustCol(a.Col).Kind.String()+":"+a.Fn)
